@@ -255,7 +255,9 @@ def run_scenario(h: Harness, sc, evaluator_kind: str, tmpdir: str | None = None,
                     trackers[p] = cls(problems[p], ev)
                 trackers[p].evaluate(objs)
             else:
-                ev.evaluate(problems[p], objs)
+                # the batch arrives as a list, a tuple or a ONE-SHOT iterator (what a step's output is), in rotation
+                k_form = (len(batch) + p + len(presented)) % 3
+                ev.evaluate(problems[p], objs if k_form == 0 else (tuple(objs) if k_form == 1 else (o for o in objs)))
         except Exception as e:  # noqa: BLE001
             err = (p, batch, f"{type(e).__name__}: {e}")
             break
